@@ -173,6 +173,9 @@ func genNode(t *rapid.T, depth int, stat *caseStat) *node {
 			var sub []seg
 			if len(it.Val.Sub.Items) > 0 && rapid.Bool().Draw(t, "crossInner") {
 				sub = it.Val.Sub.Items[rapid.IntRange(0, len(it.Val.Sub.Items)-1).Draw(t, "crossWhich")].Path
+			} else if rapid.Bool().Draw(t, "crossFresh") {
+				// a key below the same path that the block itself does NOT assign: it must survive
+				sub = []seg{{Name: "zz_" + identGen.Draw(t, "crossFreshName")}}
 			} else {
 				sub = []seg{{Name: "type"}}
 			}
